@@ -95,6 +95,17 @@ def parseStateRec (s : String) : StateRec :=
     | _ => { ok := false }
   | _ => { ok := false }
 
+/-- driver-only optimisation: tabulate the visible part of both buffers so that lookups do not walk the
+    closure chain built up by earlier prints (cells outside the size are never inspected), and drop the print
+    log (the oracle only ever looks at the entries added by the current operation) -/
+def compactVT (vt : VT) : VT :=
+  let n := vt.w * vt.h
+  let tab (b : Bool) : Array Cell := Array.ofFn (n := n) fun i => vt.cells b (i.val % vt.w) (i.val / vt.w)
+  let a0 := tab false
+  let a1 := tab true
+  { vt with log := [],
+            cells := fun b x y => if x < vt.w ∧ y < vt.h then (if b then a1 else a0).getD (y * vt.w + x) Cell.blank else vt.cells b x y }
+
 structure OSt where
   vt : VT
   sized : Bool := false                 -- declared size = actual size (after the first `sz`)
@@ -148,6 +159,7 @@ def checkWrite (i : Nat) (st : OSt) (es : List Element) (bytes : List Byte) : OS
   if st.sized then checkPositions i vt.w st new else { st with exp := none }
 
 def checkOp (c : OCfg) (beh : Behaviour) (i : Nat) (st : OSt) (op : Op) (bytes : List Byte) (rec : StateRec) : OSt :=
+  let st := { st with vt := compactVT st.vt }
   let before := st.vt
   let st := match op with
     | .writeElement e =>
